@@ -184,6 +184,7 @@ func runInChildren(child string, n, workers, chunk int, mkJob func(lo, hi int) i
 						retried[t] = true
 						mu.Unlock()
 						if again {
+							fmt.Fprintf(os.Stderr, "WEDGE-RETRY child=%s item=%d\n%s\n", child, t, errb.String())
 							mu.Lock()
 							queue = append(queue, span{t + 1, sp.hi})
 							mu.Unlock()
